@@ -144,6 +144,10 @@ def gen_cmds(rng, w, root, base):
             size = rng.choice([0, 1, 10, 100, 5000])
             k = rng.choice([1, 1, 2, 3])
             data = l3.content(rng.random(), size)
+            same = [n for n in under if n[1] == 'F' and n[0] != root]
+            if same and rng.random() < 0.2:
+                # the bytes the destination already holds, under a new time (what a "touched" source file amounts to)
+                n_ = rng.choice(same); p, data, size = rel_of(root, n_[0]), n_[2], len(n_[2])
             cuts = sorted(rng.randint(0, size) for _ in range(k - 1))
             pieces = [data[a:b] for a, b in zip([0] + cuts, cuts + [size])]
             for i, piece in enumerate(pieces):
@@ -284,6 +288,59 @@ def run_cases(rng, n, scratch, label='fsx'):
     for c in cases:
         shutil.rmtree(c['base'], ignore_errors=True)
     return cases
+
+
+def oracle_received_bytes(c):
+    """model-independent (C11/C08): a file received completely — its parts sent one after the other with nothing but progress
+    markers in between, none answered with an error — and not touched afterwards holds exactly the concatenation of its parts
+    and carries the time sent with its last part.  Judged on the world the real doer left behind."""
+    if c.get('problem', '') and not c.get('i_fs'):
+        return None
+    if any(r.startswith('Error(') and not r.startswith(tuple('Error(' + k for k in ('DeleteFile', 'DeleteFolder', 'DeleteSymlink', 'CreateFolder', 'CreateSymlink', 'Ancestors', 'Walk', 'Metadata', 'UnknownType', 'ReadLink', 'SymlinkKind', 'RootRead', 'Read)'))) for r in c.get('i_resp', [])):
+        return None          # a part was refused (or a part arrived for another file than the one in progress): what then holds is C07/C08's business
+    if not c['cmds'] or c['cmds'][0][0][0] != 'SR' or 'i_fs' not in c:
+        return None
+    root = bytes.fromhex(c['cmds'][0][0][1][1:]).decode(errors='surrogateescape').rstrip('/')
+    snap = dict(e.split('=', 1) for e in c['i_fs'].split(';') if '=' in e)
+    cur, acc, clean, expect = None, b'', False, {}
+    for m, _ in c['cmds'][1:c['done']]:
+        if m[0] == 'MK':
+            continue
+        if m[0] == 'SR':
+            return None
+        if m[0] != 'CUF':
+            # any other command: whatever was in progress is no longer judged, and a path it names is no longer expected
+            cur, clean = None, False
+            for t in m[1:2]:
+                if t.startswith('x'):
+                    q = bytes.fromhex(t[1:])
+                    for k in [k for k in expect if k == q or k.startswith(q + b'/') or q.startswith(k + b'/')]:
+                        expect.pop(k)
+            continue
+        q, data, mt, more = bytes.fromhex(m[1][1:]), bytes.fromhex(m[2][1:]), m[3], m[4] == '1'
+        for k in [k for k in expect if k == q or k.startswith(q + b'/') or q.startswith(k + b'/')]:
+            expect.pop(k)
+        if cur == q and clean:
+            acc += data
+        elif cur is not None:
+            cur, acc, clean = q, data, False      # a part for another file while one is in progress: not what a boss sends
+        else:
+            cur, acc, clean = q, data, True
+        if not more:
+            if clean and q != b'':
+                expect[q] = (acc, mt)
+            cur, clean = None, False
+    for q, (acc, mt) in expect.items():
+        key = os.path.normpath(root + '/' + q.decode(errors='surrogateescape')).encode(errors='surrogateescape').hex()
+        v = snap.get(key)
+        if v is None or not v.startswith('F:'):
+            continue
+        _, got_mt, got = v.split(':', 2)
+        if got == acc.hex() and mt != '-' and 0 <= int(mt) <= 2 ** 33 * 10 ** 9 and got_mt != mt:
+            return f'file {q!r} was sent completely with the modification time {mt} on its last part, but carries {got_mt}'
+        if got != acc.hex():
+            return f'file {q!r} was sent completely ({len(acc)} bytes, progress markers between its parts at most) but holds {len(got) // 2} bytes: {got[:60]} instead of {acc.hex()[:60]}'
+    return None
 
 
 def describe(c):
